@@ -30,7 +30,8 @@ AcceptIffWellFormed == Terminal => ((Verdict(c.pk, st) = "accept") <=> WellForme
 ExtractEqual        == (Terminal /\ Verdict(c.pk, st) = "accept") => st.out = Extract(c.pk, Inp)
 \* a rejection always carries a reason (used for the signatures of implementation mismatches)
 RejectHasReason     == (Terminal /\ Verdict(c.pk, st) = "reject") => Why(c.pk, st) # ""
-Emit == Terminal => PrintT(<<"S", c.pk, c.w, Verdict(c.pk, st), Why(c.pk, st), st.taken>>)
+Emit == Terminal => PrintT(<<"S", c.pk, c.w, Verdict(c.pk, st), Why(c.pk, st), st.taken,
+                             IF Verdict(c.pk, st) = "accept" THEN Ptrs(c.pk, Inp, st) ELSE Ptrs("none", Inp, st)>>)
 
 \* Name.from_bytes: accept <=> every component lies inside the Name; the components are the kids
 NameSeqs == LetterSeqs(Len(AlphaOf("name", Lvl)), Len(TailOf("name", Lvl)), MaxLen + 1)
@@ -49,7 +50,7 @@ ASSUME \A pk \in NestedPks :
             /\ SchemaOfPk(ParentOf(pk))[f.field].sub = SchemaOfPk(pk) /\ SchemaOfPk(ParentOf(pk))[f.field].ic = IcOfPk(pk)
 ASSUME "name" \notin Pks \/ \A w \in NameSeqs :
           LET r == ParseValue(FName("name", N(7)), Node(N(7), NameKids(w)))
-          IN PrintT(<<"S", "name", w, IF r.ok THEN "accept" ELSE "reject", r.why, <<>>>>)
+          IN PrintT(<<"S", "name", w, IF r.ok THEN "accept" ELSE "reject", r.why, <<>>, Ptrs("none", <<>>, <<>>)>>)
 
 \* letter table for the executor
 LetterValue(pk, e) ==
